@@ -398,16 +398,23 @@ func (r *Router) AddChunkFilter(filter ChunkFilter) {
 func (r *Router) assignIPAddress() (net.IP, error) {
 	// See: https://stackoverflow.com/questions/14915188/ip-address-ending-with-zero
 
-	if r.lastID == 0xfe {
-		return nil, errAddressSpaceExhausted
+	for {
+		if r.lastID == 0xfe {
+			return nil, errAddressSpaceExhausted
+		}
+
+		ip := make(net.IP, 4)
+		copy(ip, r.ipv4Net.IP[:3])
+		r.lastID++
+		ip[3] = r.lastID
+
+		// skip addresses that are already held by a NIC, e.g. static ones
+		if _, taken := r.nics[ip.String()]; taken {
+			continue
+		}
+
+		return ip, nil
 	}
-
-	ip := make(net.IP, 4)
-	copy(ip, r.ipv4Net.IP[:3])
-	r.lastID++
-	ip[3] = r.lastID
-
-	return ip, nil
 }
 
 func (r *Router) push(c Chunk) {
